@@ -29,7 +29,11 @@ class Ctx(object):
         self.shard = shard
         self.nshards = nshards
         self.t0 = time.time()
-        self.deadline = self.t0 + budget_s if budget_s else None
+        # budgets are CPU seconds of this process: on a loaded machine a run takes longer on the wall
+        # but does the same work (a wall-clock deadline silently drops the later workloads of a check,
+        # and with them what they would have detected).  A generous wall-clock limit remains as a backstop.
+        self.deadline = self.clock() + budget_s if budget_s else None
+        self.wall_deadline = self.t0 + 5 * budget_s + 60 if budget_s else None
         self.counters = collections.Counter()
         self.evaluations = 0
         self.distinct = set()          # stable hashes of distinct non-trivial cases
@@ -51,8 +55,12 @@ class Ctx(object):
         """Round-robin ownership of enumerated cases among shards."""
         return index % self.nshards == self.shard
 
+    @staticmethod
+    def clock():
+        return time.process_time()
+
     def out_of_time(self, label=None):
-        if self.deadline is not None and time.time() > self.deadline:
+        if self.deadline is not None and (self.clock() > self.deadline or time.time() > self.wall_deadline):
             if label and label not in self.shortened:
                 self.shortened.append(label)
             return True
@@ -143,6 +151,21 @@ class Ctx(object):
                 self.shortened.append(s)
         self.floors.update(data['floors'])
         self.inconclusive.extend(data['inconclusive'])
+
+
+def run_slices(ctx, parts):
+    """parts = [(weight, callable), ...]: every workload of a check gets its share of what is left of
+    the budget (unused time rolls over to the later ones), so that none is starved by the ones
+    before it."""
+    end = ctx.deadline
+    for k, (weight, fn) in enumerate(parts):
+        if end is not None:
+            rest = float(sum(x[0] for x in parts[k:]))
+            ctx.deadline = ctx.clock() + max(0.5, (end - ctx.clock()) * weight / rest)
+        try:
+            fn()
+        finally:
+            ctx.deadline = end
 
 
 # ------------------------------------------------------------ case guard
